@@ -528,7 +528,7 @@ func perLetterOnce(tb *TermBuilder, f *ssa.Function, src, recv string) (int, str
 			return r
 		}
 		if onPath[b] {
-			return &mm{0, 0} // an inner loop: its repetitions are not counted
+			return nil // an inner loop: going round it again is not a way to finish the iteration
 		}
 		onPath[b] = true
 		here := 0
@@ -545,8 +545,13 @@ func perLetterOnce(tb *TermBuilder, f *ssa.Function, src, recv string) (int, str
 				sub = &mm{0, 0}
 			case !(hdr.Dominates(s) && reaches(s, hdr)):
 				continue // leaves the loop (break / return): not a completed iteration
+			case onPath[s]:
+				continue // the back edge of a loop nested in the body: going round it again does not end the iteration
 			default:
 				sub = walk(s)
+			}
+			if sub == nil {
+				continue // no path from there completes the iteration (it only goes round an inner loop)
 			}
 			if r.min == -1 || sub.min < r.min {
 				r.min = sub.min
@@ -555,16 +560,18 @@ func perLetterOnce(tb *TermBuilder, f *ssa.Function, src, recv string) (int, str
 				r.max = sub.max
 			}
 		}
+		delete(onPath, b)
 		if r.min == -1 {
-			r = &mm{0, 0}
+			return nil // not memoised: the answer depends on what is on the path
 		}
 		r = &mm{r.min + here, r.max + here}
-		delete(onPath, b)
 		memo[b] = r
 		return r
 	}
 	r := walk(entry)
 	switch {
+	case r == nil:
+		return unknown, "no path through the loop body back to its head was found", first
 	case r.min == 1 && r.max == 1:
 		return holds, "", first
 	case r.min == 0:
